@@ -678,11 +678,13 @@ def gen_wmba(rng, n):
         na, ns = wa // 8, ws // 8
         good = bytes([(ns << 4) | na]) + a.to_bytes(na, 'big') + z.to_bytes(ns, 'big')
         tail = rb(rng, rng.choice([0, 0, 2]))
+        # the data record: empty (legal: only a warning when its length differs from the size), one byte, a few bytes, zeros
+        wdata = rng.choice([b'', b'', b'\xAA', rb(rng, 3), bytes(2)])
 
         def dump(r):
             e = r.service_data
             return 'alfid=%d a=%d s=%d' % (e.alfid_echo, e.memory_location_echo.address, e.memory_location_echo.memorysize)
-        c = DCase('write_memory_by_address', (lambda c_, a=a, z=z, af=af, mf=mf: c_.write_memory_by_address(MemoryLocation(a, z, af, mf), b'\xAA')),
+        c = DCase('write_memory_by_address', (lambda c_, a=a, z=z, af=af, mf=mf, wdata=wdata: c_.write_memory_by_address(MemoryLocation(a, z, af, mf), wdata)),
                   'ml.echo a=%d s=%d af=%s mf=%s caf=%s cmf=%s' % (a, z, on(af), on(mf), on(caf), on(cmf)), good + tail,
                   'alfid=%d a=%d s=%d' % ((ns << 4) | na, a, z), dump, {'server_address_format': caf, 'server_memorysize_format': cmf}, rid=0x7D,
                   echo_fields=[('address and length format', 0, 1), ('address', 1, na), ('size', 1 + na, ns)])
